@@ -19,7 +19,8 @@ compaction and one transaction in flight at any time, any interleaving.
 
 The specification state is `σ.hist` (ghost): the list of all entries ever inserted by a writer or committed
 by a transaction.  The linearization point of a write group / transaction commit is the step that
-changes `σ.pub` (`db.addSeq` / `db.setSeq`); the linearization point of a `Get`/iterator/snapshot is the
+changes `σ.pub` (`db.addSeq` / `db.setSeq`; `seqSkip` and `trDiscard` also move `pub`, over numbers that no
+entry carries); the linearization point of a `Get`/iterator/snapshot is the
 step that reads `db.seq` (`rSeq`, `snapAcquire`).  "Reads `view c σ.hist k s`" = sees exactly the writes
 published up to position `s`, all of them.
 
@@ -119,8 +120,10 @@ theorem pub_monotone {σ σ' : State} (h : Reachable Cfg.real c σ) (hs : Steps 
     · exact he
     · have := h2 e he; omega
 
-/-- Entries carry unique sequence numbers; whatever a buffer or the tables hold at or below `pub` is a
-published entry of the history; the unpublished part of the history is exactly the group being inserted. -/
+/-- Entries carry unique sequence numbers (not every number at or below `pub` need be carried by an
+entry: failed journal writes and discarded transactions leave gaps); every *entry* a buffer or the tables
+hold at or below `pub` is a published entry of the history; the unpublished part of the history is exactly
+the group being inserted. -/
 theorem published_in_hist {σ : State} (h : Reachable Cfg.real c σ) :
     (∀ a ∈ σ.hist, ∀ b ∈ σ.hist, a.seq = b.seq → a = b)
     ∧ (∀ e ∈ memBuf σ ++ frozenBuf σ ++ σ.tabs, e.seq ≤ σ.pub → e ∈ σ.hist)
@@ -419,9 +422,10 @@ example : run Cfg.real bytewise init trOverFrozenTrace1 = none := by decide
 
 /-! ## 4. a write group (and a committed transaction) becomes visible as a whole, in one step -/
 
-/-- Every change of `pub` is a single step (`publish` = `db.addSeq`, or `trPublish` = `db.setSeq`) and
-is recorded as one group consisting of exactly the entries of the history above the old `pub` — all of
-which are at or below the new one.  No other step changes `pub`. -/
+/-- Every change of `pub` is a single step (`publish` = `db.addSeq`, `trPublish` = `db.setSeq`, or one of
+the two steps that only consume numbers: `seqSkip`, `trDiscard`) and is recorded as one group consisting of
+exactly the entries of the history above the old `pub` (none for the latter two) — all of which are at or
+below the new one.  No other step changes `pub`. -/
 theorem publication_is_one_step {σ σ' : State} {a : Action} (h : Reachable Cfg.real c σ)
     (hs : Step Cfg.real c σ a σ') :
     (σ'.groups = σ.groups ∧ σ'.pub = σ.pub) ∨
@@ -457,6 +461,29 @@ example : exState.groups.map (fun g => (g.lo, g.hi, g.es.length)) = [(2, 4, 2), 
 example (g : Group) (hg : g ∈ exState.groups) (r : Reader) (hr : r ∈ exState.readers) (s : Nat)
     (hs : r.seq? = some s) : (∀ e ∈ g.es, e.seq ≤ s) ∨ (∀ e ∈ g.es, s < e.seq) :=
   (batch_atomic exState_reachable g hg).2.2.2.1 r hr s hs
+
+/-- sequence numbers may have gaps — `seqSkip` (a failed journal write consumes its numbers) and a discarded
+transaction (`trDiscard` moves `pub` over the numbers it used) publish *empty* groups: no entry carries
+those numbers, ever; everything above holds verbatim (a gap only makes more numbers invisible by absence) -/
+def gapTrace : List Action :=
+  [.writeInsert [ent 1 1 1 10], .publish, .seqSkip 2, .rotate, .flushInstall, .flushDrop,
+   .trOpen, .trPut (ent 1 4 0 0), .trPut (ent 2 5 1 21), .snapAcquire, .trDiscard,
+   .writeInsert [ent 2 6 1 20], .publish, .rNew, .rSeq 0, .rMems 0, .rVer 0, .rLookup 0 [1], .rLookup 0 [2],
+   .rNew, .rSeqSnap 1 2, .rMems 1, .rVer 1, .rLookup 1 [1], .rLookup 1 [2]]
+
+def gapState : State := (run Cfg.real bytewise init gapTrace).getD init
+
+theorem gapState_reachable : Reachable Cfg.real bytewise gapState :=
+  steps_of_run gapTrace init gapState (by decide) (by decide)
+
+example : gapState.pub = 6 ∧ gapState.hist = [ent 1 1 1 10, ent 2 6 1 20]
+    ∧ gapState.groups.map (fun g => (g.lo, g.hi, g.es.length)) = [(5, 6, 1), (3, 5, 0), (1, 3, 0), (0, 1, 1)]
+    ∧ gapState.readers.map (·.seq?) = [some 6, some 3]
+    ∧ gapState.readers.map (·.results) = [[([1], some [10]), ([2], some [20])], [([1], some [10]), ([2], none)]] := by
+  decide
+example : ∀ g ∈ gapState.groups, ∀ r ∈ gapState.readers, ∀ s, r.seq? = some s →
+    (∀ e ∈ g.es, e.seq ≤ s) ∨ (∀ e ∈ g.es, s < e.seq) :=
+  fun g hg r hr s hs => (batch_atomic gapState_reachable g hg).2.2.2.1 r hr s hs
 
 /-! ## 5. real-time order -/
 
